@@ -205,6 +205,10 @@ fn empty_set(label: Option<String>) -> Vec<Option<String>> {
 
 pub fn gen(rng: &mut Rng, miri: bool) -> ASet {
     let name = |rng: &mut Rng| -> String {
+        if rng.chance(1, 40) {
+            // names the format's own tooling uses as placeholders, and near misses
+            return rng.pick(&["none1", "none2", "none", "None1", "NULL", "AnimClipNameTable", "none1 "]).to_string();
+        }
         match rng.below(5) {
             0 => String::new(),
             1 => gen_sjis(rng, 6),
@@ -224,7 +228,7 @@ pub fn gen(rng: &mut Rng, miri: bool) -> ASet {
         let label = match rng.below(8) {
             0 | 1 => None,
             2 => Some(String::new()), // present but empty
-            3 => Some("AS_shared".to_string()), // the same label on several sets
+            3 => Some(if rng.chance(1, 4) { rng.pick(&["animclipnametable", "ANIMCLIPNAMETABLE", "AnimClipNameTable ", "AnimClipNameTabl"]).to_string() } else { "AS_shared".to_string() }), // the same label on several sets; near misses of the reserved label
             _ => Some(format!("AS_{}", gen_ident(rng, 6))),
         };
         let mut s = empty_set(label);
